@@ -5,7 +5,8 @@ import json, sys
 pid = sys.argv[1]
 n = sys.argv[2] if len(sys.argv) > 2 else "2"
 p = {json.loads(l)['id']: json.loads(l) for l in open('/verif/properties.jsonl')}[pid]
-wt = "/tmp/wt-" + pid
+import os as _os
+wt = _os.environ.get("WT_PREFIX", "/tmp/wt-") + pid
 import glob, os
 used = []
 for m in sorted(glob.glob(f"/verif/seeded/{pid}-*/meta.json")):
